@@ -1,21 +1,11 @@
 """C12 - Log-encoding covers exactly the integer range."""
 from vx import core, v1types
 from vx.props import common
-from vx.units import instance_ops as io
+from vx.units import instance_ops as io, algebra as al
 
 STUBS = '''impl Instance {
     // Instance::defined_ids (iterator collect; verified in C08)
     #[verifier::external_body] pub fn defined_ids(&self) -> (r: BTreeSet<u64>) ensures r@ == dv_ids(self.decision_variables@, self.decision_variables.len() as int) { unimplemented!() }
-}
-impl Linear {
-    // Linear::new instantiated at Vec (R22); BTreeMap-merge code, ASSUMED here (Entry route, see C02): for strictly increasing ids and
-    // coefficients that are not dropped (|c| > 2^-52) the term list is the input list
-    #[verifier::external_body] pub fn new(terms: Vec<(u64, F64)>, constant: F64) -> (r: Linear)
-        ensures r.constant == constant,
-            (forall|i: int, j: int| 0 <= i < j < terms.len() ==> (#[trigger] terms[i]).0 < (#[trigger] terms[j]).0)
-            && (forall|i: int| 0 <= i < terms.len() ==> (#[trigger] terms[i]).1@ is Fin && rabs(terms[i].1@->Fin_0) > eps_real())
-            ==> r.terms.len() == terms.len() && forall|i: int| 0 <= i < terms.len() ==> (#[trigger] r.terms[i]).id == terms[i].0 && r.terms[i].coefficient == terms[i].1,
-    { unimplemented!() }
 }
 '''
 
@@ -26,14 +16,18 @@ def build(asm, tier):
     asm.file('prelude/f64_model.rs')
     asm.file('prelude/anyhow_model.rs')
     asm.file('prelude/std_helpers.rs')
+    asm.file('prelude/btree_entry.rs')
     t, enums = v1types.v1_module(asm.rules)
     asm.extracted(t, 'ommx.v1.rs message types')
     asm.file('spec/logenc_spec.rs')
     asm.file('spec/c12_spec.rs')
-    asm.raw('} // mod lib\npub mod units {\n' + common.UNITS_USES + 'use super::lib::v1::decision_variable::Kind;\n')
-    asm.raw(STUBS, 'assumed callee contracts')
+    asm.file('spec/poly_value.rs')
+    asm.file('spec/merge_spec.rs')
+    asm.raw('} // mod lib\npub mod units {\n' + common.UNITS_USES + 'use super::lib::v1::decision_variable::Kind;\nbroadcast use super::lib::ax_default_f64;\n')
+    asm.raw(STUBS + al.MERGE_STUBS, 'assumed callee contracts')
     asm.stubs.append(dict(unit='Instance::defined_ids', proved_in='C08'))
-    asm.stubs.append(dict(unit='Linear::new', proved_in=''))
+    asm.stubs.append(dict(unit='BTreeMap::into_iter().map(..).collect() (btree_into_terms)', proved_in='std contract'))
+    asm.unit(al.linear_new())
     asm.unit(io.linear_from_f64())
     asm.unit(io.log_encode())
     asm.file('spec/c12_lemmas.rs')
@@ -51,7 +45,8 @@ proof fn vacuity_ok(v: v1::DecisionVariable) requires logenc_ok(v) { assert(fals
             'axioms: integrality is closed under + and -, 0 and 1 are integers (ax_int_consts, ax_int_add)',
             'A2: `x.log2().ceil() as usize` = exact ceil(log2 x) for finite x > 1 (<= 1024), usize::MAX for +inf (helper ceil_log2_usize)',
             'T4: BTreeSet::last = greatest element; Option::map over an annotated closure (R11)',
-            'T5 ASSUMED callee contracts: Linear::new on strictly increasing, non-dropped terms returns them unchanged; Instance::defined_ids = set of defined ids',
+            'T5 ASSUMED callee contract: Instance::defined_ids = set of defined ids',
+            'T4 std contracts of the BTreeMap entry API (entry / or_default with a prophecy-style &mut, remove) and of into_iter().map().collect() (ascending key order): prelude/btree_entry.rs',
         ],
         assumptions=common.A1 + ['precondition (observation, not in the property): defined ids are below 2^64 - 65536 so that max id + 1 + i cannot overflow'],
         not_covered=[],
